@@ -22,6 +22,7 @@ INSTANTS = [
     (1, 1, 1, 0, 0, 0, 0), (1, 1, 1, 23, 59, 59, 999999), (1969, 12, 31, 23, 59, 59, 999999), (1970, 1, 1, 0, 0, 0, 0), (1970, 1, 1, 0, 0, 0, 1),
     (1970, 1, 1, 1, 11, 35, 0), (2000, 2, 29, 12, 0, 0, 0), (2038, 1, 19, 3, 14, 8, 0), (2020, 3, 29, 2, 30, 0, 0), (2020, 10, 25, 2, 30, 0, 0),
     (2020, 11, 1, 1, 30, 0, 0), (2021, 4, 4, 1, 45, 0, 0), (9999, 12, 31, 23, 59, 59, 999999), (2022, 6, 15, 12, 30, 45, 123456),
+    (1969, 12, 31, 23, 59, 58, 500000), (1950, 6, 1, 0, 0, 0, 250000), (1970, 1, 1, 0, 0, 1, 750000), (1901, 12, 13, 20, 45, 51, 500000),
 ]
 ZONES = ["None", "UTC", "Z('UTC')", "off(5,30)", "off(5,neg=True)", "off(14)", "off(12,neg=True)", "off(1,2,3)", "off(0,19,32,neg=True)",
          "Z('Europe/Amsterdam')", "Z('America/New_York')", "Z('Australia/Lord_Howe')"]
@@ -87,6 +88,8 @@ def forms_of(src):
     if us == 0 and -62135596800 <= total <= 253402300799:
         out.append(("epoch-int", total, inst, 0.0))
         out.append(("epoch-float", float(total), inst, 0.0))
+    if us in (250000, 500000, 750000) and abs(total) < 2**40:
+        out.append(("epoch-float", total + us / 1e6, inst, 0.0))  # exactly representable binary fractions, also before 1970
     return out
 
 
